@@ -42,7 +42,14 @@ Conventions that are part of the trusted reading (stated in the evidence):
   * `len(self.seq)` of a SeqView is read as the field `_seq_len`; the generated constructor
     keeps `len(seq)` as a parameter and ViewGenEq proves that it stores exactly that number
     in `_seq_len`, which is what justifies the reading;
-  * objects that never reach the arithmetic (seq of a SeqDataView, seqid, alphabet) are dropped.
+  * objects that never reach the arithmetic (seq of a SeqDataView, seqid, alphabet) are dropped;
+  * `__getitem__` is translated twice, for an int and for a slice argument, `_is_int(segment)` being
+    True resp. False; the text of `_is_int` is checked to be the known type test;
+  * `copy` is translated for `sliced=False` only (every call in the kernel is `self.copy()`), and
+    `**kwargs` must provably be `self._get_init_kwargs()`;
+  * method resolution is the textual MRO of the three classes (checked against the `class` statements);
+    `start/stop/step/_offset/_seq_len/seq` must be plain stored attributes, no `__bool__`,
+    `__getattr__`, `__setattr__`, `__new__`, metaclass or class decorator may appear.
 
 usage: py2gallina.py [--repo DIR] [--records FILE]     prints ViewGen.v on stdout
        (source root: DIR/src; DIR defaults to $VERIF_REPO, then /repo)
